@@ -474,7 +474,11 @@ func smallHash(tag byte, i int) common.Hash {
 }
 
 func genUintArg(t *rapid.T, l string) *big.Int {
-	switch rapid.IntRange(0, 5).Draw(t, l+"k") {
+	switch rapid.IntRange(0, 7).Draw(t, l+"k") {
+	case 6, 7:
+		// non-zero high bytes, zero low bytes (a word that survives cutting its tail)
+		hi := rapid.IntRange(1, 0xffff).Draw(t, l+"hi")
+		return new(big.Int).Lsh(big.NewInt(int64(hi)), uint(8*rapid.IntRange(1, 30).Draw(t, l+"zeroBytes")))
 	case 0:
 		return new(big.Int)
 	case 1:
@@ -498,10 +502,10 @@ func genValidDef(t *rapid.T, l string, contracts int) svc.EventTriggerDefinition
 	for i := 0; i < n; i++ {
 		pl := fmt.Sprintf("%sp%d", l, i)
 		var ref svc.LogValueRef
-		switch rapid.IntRange(0, 8).Draw(t, pl+"rk") {
-		case 0, 1, 2, 3:
+		switch rapid.IntRange(0, 9).Draw(t, pl+"rk") {
+		case 0, 1, 2:
 			ref = svc.LogValueRef{Offset: uint64(rapid.IntRange(0, 3).Draw(t, pl+"topic"))}
-		case 4, 5:
+		case 3, 4, 5, 8:
 			ref = svc.LogValueRef{Offset: uint64(rapid.IntRange(4, 7).Draw(t, pl+"static"))}
 		case 6, 7:
 			ref = svc.LogValueRef{Dynamic: true, Offset: uint64(rapid.IntRange(4, 6).Draw(t, pl+"dyn"))}
@@ -524,6 +528,13 @@ func genValidDef(t *rapid.T, l string, contracts int) svc.EventTriggerDefinition
 			arg := make([]byte, ln)
 			for j := range arg {
 				arg[j] = byte(rapid.IntRange(0, 3).Draw(t, pl+"b"))
+			}
+			if ln == 32 && ref.Offset >= 4 && rapid.Bool().Draw(t, pl+"trailingZeros") {
+				// like a left-aligned bytesN / short string: zero bytes at the end of the word
+				arg[0] |= 1
+				for j := 32 - rapid.IntRange(1, 28).Draw(t, pl+"nz"); j < 32; j++ {
+					arg[j] = 0
+				}
 			}
 			vp.ByteArgs = [][]byte{arg}
 			if ref.Offset < 4 {
@@ -602,6 +613,71 @@ func valueFor(t *rapid.T, l string, vp svc.ValuePredicate, want bool, size int) 
 // passes the node-side filter where possible. The verdict is always taken
 // from refMatch, never from the intention.
 func genLogFor(t *rapid.T, l string, d *svc.EventTriggerDefinition, want bool) fakechain.LogSpec {
+	lg, _ := genLogForInfo(t, l, d, want)
+	return lg
+}
+
+// truncatedWord chooses the content of a static data word of which only the
+// first keep bytes stay in the log (GetValue documents right zero-padding), so
+// that where possible the padded value decides the predicate as wanted while a
+// word read as zero would decide it the other way.
+func truncatedWord(t *rapid.T, l string, vp svc.ValuePredicate, want bool) ([]byte, int) {
+	keep := rapid.IntRange(1, 31).Draw(t, l+"keep")
+	w := make([]byte, 32)
+	high := func(first byte) {
+		for i := 0; i < keep; i++ {
+			w[i] = byte(rapid.IntRange(1, 255).Draw(t, l+"hb"))
+		}
+		if first != 0 {
+			w[0] = first
+		}
+	}
+	trailing := func(b []byte) int {
+		z := 0
+		for z < 31 && b[31-z] == 0 {
+			z++
+		}
+		return z
+	}
+	switch {
+	case vp.Op == svc.BytesEq:
+		arg := vp.ByteArgs[0]
+		copy(w, arg)
+		if z := trailing(w); want && z > 0 {
+			keep = 32 - rapid.IntRange(1, z).Draw(t, l+"cutZeros") // only zero bytes are cut: still equal
+		} else if !want {
+			w[0] ^= 0x80 // differs inside the kept part
+		}
+	case want && (vp.Op == svc.UintGt || vp.Op == svc.UintGte):
+		high(0xff)
+	case want && (vp.Op == svc.UintLt || vp.Op == svc.UintLte):
+		w[0] = 1 // 2^248: below only the largest arguments
+	case want: // UintEq: possible when the argument's word ends in zero bytes
+		aw := word(vp.IntArgs[0])
+		if z := trailing(aw); z > 0 && vp.IntArgs[0].Cmp(two256) < 0 && vp.IntArgs[0].Sign() > 0 {
+			copy(w, aw)
+			keep = 32 - rapid.IntRange(1, z).Draw(t, l+"cutZeros")
+		} else {
+			high(0)
+		}
+	case vp.Op == svc.UintLt || vp.Op == svc.UintLte:
+		high(0xff) // large: not below the argument, while zero would be
+	case vp.Op == svc.UintGt || vp.Op == svc.UintGte:
+		w[0] = 1
+	default:
+		high(0) // UintEq: some non-zero number; zero would equal an argument of 0
+	}
+	for i := keep; i < 32; i++ {
+		w[i] = 0
+	}
+	return w, keep
+}
+
+// genLogForInfo is genLogFor and additionally reports whether the log's data
+// ends inside the highest statically referenced data word ("" = no; else
+// "cut" or "cut+decides" when the padded word and a zero word give different
+// verdicts for the predicate on that word).
+func genLogForInfo(t *rapid.T, l string, d *svc.EventTriggerDefinition, want bool) (fakechain.LogSpec, string) {
 	lg := fakechain.LogSpec{Address: d.Contract}
 	if !want && (len(d.LogPredicates) == 0 || rapid.IntRange(0, 5).Draw(t, l+"otherAddr") == 0) {
 		lg.Address = smallAddr(9)
@@ -674,11 +750,39 @@ func genLogFor(t *rapid.T, l string, d *svc.EventTriggerDefinition, want bool) f
 		}
 	}
 	lg.Topics = topics
+	info := ""
+	// raw LOGn / packed encodings: the data may end inside the highest
+	// statically referenced word. Only without dynamic references (their tail
+	// lies behind the head words).
+	top, topIdx := -1, -1
+	for i, p := range d.LogPredicates {
+		if p.LogValueRef.Dynamic {
+			top = -1
+			break
+		}
+		if o := p.LogValueRef.Offset; o >= 4 && o < 64 && int(o-4) >= top {
+			top, topIdx = int(o-4), i
+		}
+	}
+	cutAt := -1
+	if top >= 0 && len(tail) == 0 && rapid.IntRange(0, 2).Draw(t, l+"endsInsideStaticWord") == 0 {
+		vp := d.LogPredicates[topIdx].ValuePredicate
+		w, keep := truncatedWord(t, l+"cut", vp, topIdx != miss)
+		head[top] = w
+		cutAt = top*32 + keep
+		info = "cut"
+		if refPredicate(vp, w) != refPredicate(vp, make([]byte, 32)) {
+			info = "cut+decides"
+		}
+	}
 	for _, h := range head {
 		lg.Data = append(lg.Data, h...)
 	}
 	lg.Data = append(lg.Data, tail...)
-	return lg
+	if cutAt >= 0 {
+		lg.Data = lg.Data[:cutAt]
+	}
+	return lg, info
 }
 
 func defDesc(d *svc.EventTriggerDefinition) string {
